@@ -91,7 +91,8 @@ impl Check for KernelSync {
         for _ in 0..n {
             let s = rng.usize_below(n_src);
             let ap = sources[s].get("addpath_rx").map(|b| b.as_bool()).unwrap_or(false);
-            match rng.weighted(&[36, 14, 14, 5, 4, 6, 4, 4]) {
+            match rng.weighted(&[36, 14, 14, 5, 4, 6, 4, 4, 6]) {
+                8 => ops.push(jarr!["local", rng.below(n_pfx), rng.below(4), rng.chance(2, 3), rng.chance(1, 3)]),
                 0 => {
                     let mut spec = gen_rspec(&mut rng, src_roles[s], asn_for(src_roles[s], s));
                     spec.nh = rng.range(1, 3) as u8;
@@ -123,7 +124,7 @@ impl Check for KernelSync {
 
     fn info(&self) -> CheckInfo {
         CheckInfo {
-            rule: "1-3 source peers (eBGP / iBGP / RR client, optional add-path towards the DUT, optional GR so that stale marking and purge happen) announcing 2-5 prefixes over 3 shared next hops with attributes from small colliding domains (so that paths tie before the router-id step); ops announce / replace / withdraw (optionally without quiescence before the next op = inside a burst), peer drop and reconnect, an import policy installed / replaced / removed with a soft reset IN of every peer (every path inserted again over itself), next-hop reachability reports injected through the kernel event channel (optionally inside a burst), waits across the GR restart timer; 1-3 shards. At quiescence: the fold of Apply requests per prefix equals the next-hop set of the RIB's best path and the paths tied with it on every step before router-id (reference comparator), empty when there is none; register - unregister per address equals the number of peer-learned RIB entries using that next hop and never goes negative; no eligible best path uses a next hop reported unreachable. non-trivial = at least two paths tied or a next-hop report arrived while routes existed".into(),
+            rule: "1-3 source peers (eBGP / iBGP / RR client, optional add-path towards the DUT, optional GR so that stale marking and purge happen) announcing 2-5 prefixes over 3 shared next hops with attributes from small colliding domains (so that paths tie before the router-id step); ops announce / replace / withdraw (optionally without quiescence before the next op = inside a burst), peer drop and reconnect, routes originated / deleted by the operator for the same prefixes (with one of the shared next hops or none), an import policy installed / replaced / removed with a soft reset IN of every peer (every path inserted again over itself), next-hop reachability reports injected through the kernel event channel (optionally inside a burst), waits across the GR restart timer; 1-3 shards. At quiescence: the fold of Apply requests per prefix equals the next-hop set of the RIB's best path and the paths tied with it on every step before router-id (reference comparator), empty when there is none; register - unregister per address equals the number of peer-learned RIB entries using that next hop and never goes negative; no eligible best path uses a next hop reported unreachable. non-trivial = at least two paths tied or a next-hop report arrived while routes existed".into(),
             components_real: vec!["TableManager::{insert_route,remove_route,unregister_peer,drop_stale_families,update_nexthop_validity}, TableShard::distribute_update, nht_register".into(), "table::Table::{insert,remove,drop,restale,drop_stale,update_nexthop_validity}, NlriChange::ecmp_paths".into(), "the kernel-event arm of the dispatch loop; real sessions".into()],
             components_stubbed: vec!["netlink: kernel::run_service_loop and its own refcount map are not run; requests are observed at the KernelHandle channel (H7 hook)".into(), "TCP, clock, peers".into()],
             assumptions: vec!["VRF tables and VPN import targets are the subject of the second scenario (vrf-fib); an import policy cannot rewrite next hops in this daemon (the policy table refuses it): the `pol` op switches a MED-setting import policy and soft-resets every peer inbound".into()],
@@ -219,6 +220,22 @@ async fn run(case: Json, tol: Tolerate) -> Outcome {
                 }
                 out.hit("op.import-policy-switched+soft-reset-in");
                 in_burst = op.at(2).as_bool();
+            }
+            "local" => {
+                // the operator originates / deletes a route for one of the prefixes, with one of the shared
+                // next hops or none: it takes part in selection and in the FIB, never in the registrations
+                let net = packet::PathNlri { path_id: 0, nlri: v4_prefix(op.at(1).as_u64()) };
+                if op.at(3).as_bool() {
+                    let k = op.at(2).as_u64();
+                    let nh = if k == 0 { Ipv4Addr::UNSPECIFIED } else { Ipv4Addr::new(192, 0, 2, k as u8) };
+                    let attrs = vec![packet::Attribute::new_with_value(packet::Attribute::ORIGIN, 0).unwrap(), packet::Attribute::new_with_bin(packet::Attribute::AS_PATH, vec![]).unwrap()];
+                    t.w.tables.insert_route(table::Source::local(), Family::IPV4, net, Some(bgp::Nexthop::V4(nh)), Arc::new(attrs), None, 0);
+                    out.hit("op.local-route-added");
+                } else {
+                    t.w.tables.remove_route(table::Source::local(), Family::IPV4, net, None, 0);
+                    out.hit("op.local-route-removed");
+                }
+                in_burst = op.at(4).as_bool();
             }
             "down" => {
                 let s = op.at(1).as_usize() % n;
